@@ -576,9 +576,19 @@ theorem sa_params_visit (e : Expr) : ParP (saVisit fields core) e := by
     rw [saVisit] at h
     simp only [bind_eq_ok, Prod.exists, Outcome.pure_eq] at h
     obtain ⟨a, ka, ha, b, kb, hb, h⟩ := h
-    repeat' split at h
-    all_goals cases h
-    all_goals simp [lits, ihl _ _ ha, ihr _ _ hb]
+    by_cases hsw : (isNullLit l && (op == .eq || op == .ne)) = true
+    · -- `null eq x`: the operands are swapped; the null literal binds no parameter
+      have hl0 : lits l = [] := lits_null_of l (by simp only [Bool.and_eq_true] at hsw; exact hsw.1)
+      have pa := ihl _ _ ha
+      rw [hl0] at pa
+      simp only [hsw, ↓reduceIte] at h
+      repeat' split at h
+      all_goals cases h
+      all_goals simp [lits, hl0, pa, ihr _ _ hb]
+    · simp only [hsw, Bool.false_eq_true, ↓reduceIte] at h
+      repeat' split at h
+      all_goals cases h
+      all_goals simp [lits, ihl _ _ ha, ihr _ _ hb]
   · intro op l r ihl ihr t k h
     rw [saVisit] at h
     simp only [bind_eq_ok, Prod.exists, Outcome.pure_eq] at h
@@ -636,6 +646,13 @@ theorem relitSa_lit {k v e'} (h : relitSa (.lit k v) e' = true) :
     ∃ v', e' = .lit k v' ∧ (valueKind k = true ∨ v = v') := by
   cases e' <;> simp [relitSa] at h
   obtain ⟨⟨rfl, h1⟩, _⟩ := h; exact ⟨_, rfl, h1⟩
+/-- a null literal corresponds to a null literal: both comparisons swap their operands, or neither does -/
+theorem isNullLit_relitSa {l l' : Expr} (h : relitSa l l' = true) : isNullLit l = isNullLit l' := by
+  cases l <;> cases l' <;> simp [relitSa] at h <;> try rfl
+  rename_i k v k' v'
+  have hk : k = k' := h.1.1
+  subst hk
+  cases k <;> rfl
 theorem relitSa_list {xs e'} (h : relitSa (.list xs) e' = true) : ∃ ys, e' = .list ys ∧ relitSaList xs ys = true := by
   cases e' <;> simp [relitSa] at h
   exact ⟨_, rfl, h⟩
@@ -767,7 +784,10 @@ theorem sa_skel_visit (e : Expr) : SkelP relitSa (saVisit fields core) e := by
     simp only [bind_eq_ok, Prod.exists, Outcome.pure_eq] at h h'
     obtain ⟨a, ka, ha, b, kb, hb, h⟩ := h
     obtain ⟨a', ka', ha', b', kb', hb', h'⟩ := h'
-    repeat' split at h
+    rw [← isNullLit_relitSa hrl] at h'
+    by_cases hsw : (isNullLit l && (op == .eq || op == .ne)) = true
+    all_goals simp only [hsw, Bool.false_eq_true, ↓reduceIte] at h h'
+    all_goals repeat' split at h
     all_goals cases h
     all_goals repeat' split at h'
     all_goals cases h'
